@@ -221,7 +221,7 @@ async function dispatch(cmd) {
         emit({ ev: "error", id: cmd.id, err: "unknown server" });
         break;
       }
-      st.scripts.set(cmd.rpc ?? "*", cmd.script);
+      st.scripts.set(cmd.rpc || "*", cmd.script);
       break;
     }
     case "call":
